@@ -68,8 +68,13 @@ def gen(rng, tier):
           'q.r.s.h', 's.h', 'x.pa.ma.f']
   regs = rng.sample(pool, rng.randint(2, 6))
   hooks = rng.random() < 0.5
+  # part C: names that come into being through dynamic registration
+  dyn = {'pkg': rng.choice(['vq8', 'vq8.sub', 'vq8.sub.deep']),
+         'import_as': rng.choice([None, None, 'alias8']),
+         'targets': rng.sample(['fn', 'cls', 'meth'], rng.randint(1, 3)),
+         'scoped': rng.random() < 0.3}
   return {'ops': ops, 'regs': regs, 'hooks': hooks,
-          'bind_at': rng.randint(0, len(regs) - 1)}
+          'bind_at': rng.randint(0, len(regs) - 1), 'dyn': dyn}
 
 
 # ---------------------------------------------------------------------------
@@ -383,12 +388,150 @@ def part_b(case, v, log, stats):
       log.add('hooks', sp[0], sp[-1])
 
 
+# ---------------------------------------------------------------------------
+# Part C: configurables that are registered dynamically by a parse
+# ---------------------------------------------------------------------------
+
+def part_c(case, v, log, stats):
+  gin = world.gin
+  world.reset()
+  d = case['dyn']
+  received = {}
+
+  def dfn(x='dflt'):
+    received['fn'] = x
+    return x
+
+  class DK(object):
+
+    def __init__(self, x='dflt'):
+      received['cls'] = x
+
+    def meth(self, x='dflt'):
+      received['meth'] = x
+      return x
+  mod = probes.plant_module(d['pkg'], {'dfn': dfn, 'DK': DK})
+  dfn.__module__ = DK.__module__ = d['pkg']
+  DK.__qualname__ = 'DK'
+  dfn.__qualname__ = 'dfn'
+  DK.meth.__qualname__ = 'DK.meth'
+  DK.meth.__module__ = d['pkg']
+  handle = d['import_as'] or d['pkg']
+  # the module part of the registered name is the import's own spelling: with
+  # `import a.b as c` it is a.c
+  regmod = d['pkg']
+  if d['import_as']:
+    regmod = '.'.join(d['pkg'].split('.')[:-1] + [d['import_as']])
+  lines = ['from __gin__ import dynamic_registration',
+           'import %s%s' % (d['pkg'], ' as alias8' if d['import_as'] else '')]
+  sel = {'fn': 'dfn', 'cls': 'DK', 'meth': 'DK.meth'}
+  sc = 'sc/' if d['scoped'] else ''
+  vals = {}
+  for t in d['targets']:
+    vals[t] = 'dyn_%s' % t
+    lines.append('%s%s.%s.x = %r' % (sc, handle, sel[t], vals[t]))
+  try:
+    gin.parse_config('\n'.join(lines))
+  except Exception as e:  # pylint: disable=broad-except
+    v('C08.dyn_parse', [type(e).__name__],
+      'parsing %r raised %r' % (lines, e))
+    return
+  log.add('dyn_parse', lines)
+  objs = {'fn': dfn, 'cls': DK, 'meth': DK.meth}
+  for t in d['targets']:
+    full = '%s.%s' % (regmod, sel[t])
+    stats['dyn_targets'] += 1
+    # by object
+    try:
+      with gin.config_scope('sc' if d['scoped'] else None):
+        by_obj = gin.get_bindings(objs[t])
+    except Exception as e:  # pylint: disable=broad-except
+      by_obj = 'EXC %s' % type(e).__name__
+    if by_obj != {'x': vals[t]}:
+      v('C08.dyn_by_object', [t],
+        'get_bindings(<%s object>) gives %r after %r' % (t, by_obj, lines))
+    for q in suffixes([full]):
+      if t == 'meth' and '.' not in q:
+        # gin deliberately refuses a method without its class name
+        continue
+      results = {}
+      try:
+        results['query'] = gin.query_parameter('%s%s.x' % (sc, q))
+      except Exception as e:  # pylint: disable=broad-except
+        results['query'] = 'EXC %s' % type(e).__name__
+      try:
+        with gin.config_scope('sc' if d['scoped'] else None):
+          results['get_bindings'] = gin.get_bindings(q).get('x')
+      except Exception as e:  # pylint: disable=broad-except
+        results['get_bindings'] = 'EXC %s' % type(e).__name__
+      try:
+        fn = gin.get_configurable(sc + q)
+        received.clear()
+        if t == 'meth':
+          # the configurable method of the (decorated) class
+          results['call'] = 'n/a'
+        else:
+          fn()
+          results['call'] = received.get(t)
+      except Exception as e:  # pylint: disable=broad-except
+        results['call'] = 'EXC %s' % type(e).__name__
+      for api, got in sorted(results.items()):
+        if got == 'n/a':
+          continue
+        if got != vals[t]:
+          v('C08.dyn_spelling', [t, api],
+            'after %r: %s under spelling %r gives %r, want %r' %
+            (lines, api, q, got, vals[t]))
+      # a later binding under this spelling lands on the same key
+      newval = 'again_%s_%d' % (t, len(q))
+      try:
+        gin.bind_parameter('%s%s.x' % (sc, q), newval)
+        vals[t] = newval
+        got = gin.query_parameter('%s%s.x' % (sc, full))
+        if got != newval:
+          v('C08.dyn_same_key', [t],
+            'bound %r.x = %r, query under the complete name gives %r' %
+            (q, newval, got))
+      except Exception as e:  # pylint: disable=broad-except
+        v('C08.dyn_spelling', [t, 'bind'],
+          'after %r: bind_parameter under spelling %r raised %r' %
+          (lines, q, e))
+      log.add('dyn_lookup', t, q, sorted(results.items()))
+  # the method really receives the value
+  if 'meth' in d['targets']:
+    try:
+      with gin.config_scope('sc' if d['scoped'] else None):
+        dk = gin.get_configurable(regmod + '.DK')
+        received.clear()
+        inst = dk()
+        inst.meth()
+      if received.get('meth') != vals['meth']:
+        v('C08.dyn_method_call', [],
+          'after %r the method received %r, want %r' %
+          (lines, received.get('meth'), vals['meth']))
+    except Exception as e:  # pylint: disable=broad-except
+      v('C08.dyn_method_call', [type(e).__name__],
+        'after %r calling the method raised %r' % (lines, e))
+  try:
+    cs = gin.config_str()
+    gin.clear_config()
+    gin.parse_config(cs)
+    for t in d['targets']:
+      got = gin.query_parameter('%s%s.%s.x' % (sc, regmod, sel[t]))
+      if got != vals[t]:
+        v('C08.dyn_roundtrip', [t], 'config_str round trip gives %r for %s, '
+          'want %r\n%s' % (got, t, vals[t], cs))
+  except Exception as e:  # pylint: disable=broad-except
+    v('C08.dyn_roundtrip', [type(e).__name__],
+      'config_str round trip raised %r' % e)
+
+
 def run(case):
   world.reset()
   log = probes.Log()
   viol = []
   stats = {'pop_with_nested': 0, 'copy_with_nested': 0,
-           'resolution_changed': 0, 'hook_pairs': 0}
+           'resolution_changed': 0, 'hook_pairs': 0, 'dyn_targets': 0}
 
   def v(oracle, disc, msg):
     if len(viol) < 16:
@@ -398,6 +541,8 @@ def run(case):
     part_a(case, v, log, stats)
   if not case.get('skip_b'):
     part_b(case, v, log, stats)
+  if case.get('dyn') and not case.get('skip_c'):
+    part_c(case, v, log, stats)
   seen = set()
   uniq = []
   for x in viol:
@@ -417,7 +562,8 @@ def run(case):
                  'copy_while_nested': stats['copy_with_nested'],
                  'spelling_resolution_changed_by_later_registration':
                      stats['resolution_changed'],
-                 'hook_pairs': stats['hook_pairs']},
+                 'hook_pairs': stats['hook_pairs'],
+                 'dynamically_registered_targets': stats['dyn_targets']},
       'sample_obs': [probes.stable(e) for e in log.events[:8]],
   }
 
@@ -431,6 +577,15 @@ def shrinks(case):
     c = copy.deepcopy(case)
     c['skip_b'] = True
     yield c
+  if case.get('dyn') and not case.get('skip_c'):
+    c = copy.deepcopy(case)
+    c['skip_c'] = True
+    yield c
+    if len(case['dyn']['targets']) > 1:
+      for t in case['dyn']['targets']:
+        c = copy.deepcopy(case)
+        c['dyn']['targets'].remove(t)
+        yield c
   yield from shrink.tree_shrinks(case, {'ops', 'regs'}, allow_empty=True)
   if case.get('hooks'):
     c = copy.deepcopy(case)
